@@ -81,6 +81,9 @@ def generate(seed, tier="quick"):
         for _h in range(rnd.choice([0, 0, 1, 1, 2])):
             ops.append(_history_op(rnd, cfg, oid))
             oid += 1
+        if rnd.random() < 0.03:
+            ops.append({"id": oid, "op": "helper_setup_mcmc", "data": 0, "lib": 0, "rng_seed": rnd.getrandbits(20), "role": "mcmc-setup"})
+            oid += 1
         p = _path(rnd, cfg)
         op = {"id": oid, "op": "mll", "data": 0, "lib": 0, "role": "target", "n_batches": common.gen_n_batches(rnd, N)}
         op.update(p)
@@ -288,6 +291,9 @@ def evaluate(dep, program):
     # helper-level
     for rec in dep.history:
         op = rec["op"]
+        if op.get("role") == "mcmc-setup":
+            probe("setup_mcmc_in_history" if rec["raised"] is None else "setup_mcmc_raised")
+            continue
         if op.get("role") == "mutate":
             if rec["raised"] is not None:
                 probe("harness:mutate_data_failed")
@@ -328,6 +334,10 @@ def evaluate(dep, program):
                 if not oracles.same_values(raw[:, :5], exp):
                     v.append(Violation(PROPERTY, "C05.helper-post-rows", "C05:helper:posterior-nonlinear-altered", oracles.first_diff(raw[:, :5], exp)))
     probes["lstar_evals"] = L.evals
+    for j_, why_ in dep.world.data_modified_in_place():
+        v.append(Violation(PROPERTY, "C05.input-modified", "C05:data-object-modified-in-place-by-a-call", "data set %d: %s; later calls on the same data see other numbers" % (j_, why_)))
+    for rec_ in dep.results_changed_after_return():
+        v.append(Violation("C05", "C05.result-mutated", "C05:%s:result-returned-earlier-was-changed-by-a-later-call" % rec_["op"]["op"], "the object returned by op %s no longer holds the values it held when it was returned" % (rec_["op"],)))
     for li, lib in enumerate(dep.world.libraries):
         bad = lib.modified_in_place()
         if bad:
